@@ -1,0 +1,8 @@
+//go:build !verif
+
+// Package verif provides the schedule gates used by the out-of-tree verification harness (/verif).
+// Without the "verif" build tag every gate is an empty function.
+package verif
+
+// At marks a scheduling point. It does nothing in normal builds.
+func At(point string, obj interface{}) {}
